@@ -17,7 +17,7 @@
 EXTENDS PeerManager, IOUtils
 
 VARIABLE i                      \* next line of the trace
-Trace == ndJsonDeserialize(IOEnv.VERIF_TRACE)
+Trace == ndJsonDeserialize(IOEnv.VERIF_MTRACE)
 tvars == <<vars, i>>
 TraceChain == <<"h1", "h2">>
 
